@@ -505,8 +505,8 @@ fn step() -> BoxedStrategy<Step> {
         1 => (0u8..4).prop_map(|doc| Step::CodeActions { doc }),
         1 => (0u8..4).prop_map(|doc| Step::DeleteFile { doc }),
         2 => (0u8..4, any::<u8>()).prop_map(|(which, text)| Step::OddUri { which, text }),
-        2 => (0u8..6, any::<u8>()).prop_map(|(shape, text)| Step::DeepPath { shape, text }),
-        1 => Just(Step::SilentPaths),
+        3 => (0u8..6, any::<u8>()).prop_map(|(shape, text)| Step::DeepPath { shape, text }),
+        3 => Just(Step::SilentPaths),
     ]
     .boxed()
 }
@@ -810,7 +810,7 @@ fn dependency_scan(run: &mut Run) {
 }
 
 pub fn run(run: &mut Run) {
-    run.rule = "(a) generated harper-ls sessions (4 documents incl. URLs, e-mail addresses and host names; open/change/save/close/delete, AddToUserDict, AddToFileDict, IgnoreLint, RecordLint, codeAction, didChangeConfiguration, shutdown; never HarperOpen) each run under strace -f: no socket/connect/send*/bind/listen, no resolver or TLS files, no exec of another program, and every create/write/rename/unlink/mkdir targets the configured dictionary or statistics paths; documents with odd URIs and documents whose absolute path has 150-400 bytes included; in 30% of the sessions the user dictionary is a relative symbolic link (only the link's target may be written, nothing relative to the working directory); the client may start reporting other dictionary paths without a notification, and every added word must be found in the dictionary configured at that time and nowhere else; one TCP-mode session (only the 127.0.0.1:4000 listener and its accepted connection) and one TCP-mode start while port 4000 is in use (no listener anywhere else). (b) a worker process pushing generated documents through all front-ends, the harper.js API and statistics export/import under strace: no network syscall and nothing opened for writing. Non-trivial session = >=1 dictionary save, >=1 command and the statistics write at shutdown. Auxiliary (static): cargo metadata closure of harper-ls/harper-cli/harper-wasm scanned against a deny-list of network client crates.".into();
+    run.rule = "(a) generated harper-ls sessions (4 documents incl. URLs, e-mail addresses and host names; open/change/save/close/delete, AddToUserDict, AddToFileDict, IgnoreLint, RecordLint, codeAction, didChangeConfiguration, shutdown; never HarperOpen) each run under strace -f: no socket/connect/send*/bind/listen, no resolver or TLS files, no exec of another program, and every create/write/rename/unlink/mkdir targets the configured dictionary or statistics paths; documents with odd URIs and documents whose absolute path has 150-400 bytes included; in 40% of the sessions the user dictionary is a relative symbolic link (only the link's target may be written, nothing relative to the working directory); the client may start reporting other dictionary paths without a notification, and every added word must be found in the dictionary configured at that time and nowhere else; one TCP-mode session (only the 127.0.0.1:4000 listener and its accepted connection) and one TCP-mode start while port 4000 is in use (no listener anywhere else). (b) a worker process pushing generated documents through all front-ends, the harper.js API and statistics export/import under strace: no network syscall and nothing opened for writing. Non-trivial session = >=1 dictionary save, >=1 command and the statistics write at shutdown. Auxiliary (static): cargo metadata closure of harper-ls/harper-cli/harper-wasm scanned against a deny-list of network client crates.".into();
     run.threads = run.threads.min(6);
     run.max_shrink_iters = 40;
     let n = run.n(16, 200);
@@ -818,7 +818,7 @@ pub fn run(run: &mut Run) {
         "language_server_sessions",
         n,
         || {
-            (proptest::collection::vec(step(), 4..16), prop::bool::weighted(0.3))
+            (proptest::collection::vec(step(), 4..16), prop::bool::weighted(0.4))
                 .prop_map(|(mut steps, symlinked_user_dict)| {
                     // every session opens something first so that commands have a target
                     steps.insert(0, Step::Open { doc: 1, text: 0 });
@@ -830,10 +830,12 @@ pub fn run(run: &mut Run) {
     );
     run.require_class("language_server_sessions", "dictionary_saved", (n / 2) as u64);
     run.require_class("language_server_sessions", "statistics_written_at_shutdown", (n / 2) as u64);
-    run.require_class("language_server_sessions", "document_path_of_256_bytes_or_more", (n / 8) as u64);
-    run.require_class("language_server_sessions", "user_dictionary_is_a_relative_symbolic_link", (n / 8) as u64);
-    run.require_class("language_server_sessions", "dictionary_paths_changed_without_notification", (n / 8) as u64);
-    run.require_class("language_server_sessions", "words_added_after_the_server_pulled_the_new_paths", (n / 8) as u64);
+    // (16 sessions in the quick tier: the requirement is "not absent", the weights make each of
+    // these shapes occur in a third to a half of the sessions)
+    run.require_class("language_server_sessions", "document_path_of_256_bytes_or_more", (n / 16) as u64);
+    run.require_class("language_server_sessions", "user_dictionary_is_a_relative_symbolic_link", (n / 16) as u64);
+    run.require_class("language_server_sessions", "dictionary_paths_changed_without_notification", (n / 16) as u64);
+    run.require_class("language_server_sessions", "words_added_after_the_server_pulled_the_new_paths", (n / 16) as u64);
     run_library_worker(run);
     tcp_session(run);
     tcp_busy_port_session(run);
